@@ -108,3 +108,94 @@ func reconnectUnit(vers uint16, capacity, depth int) harness.Unit {
 		c.Sample(fmt.Sprintf("TLS %04x multi-name server, client LRU cache of %d: every sequence up to length %d over {connect(3 names), rotate ticket keys keeping / dropping the old key}", vers, capacity, depth))
 	}}
 }
+
+// gmReconnectUnit: the same on the GMSSL path with client authentication: one server Config (suites
+// listed explicitly, which is what lets a GMSSL server resume), one client Config with a session
+// cache and a certificate; every sequence of {connect, rotate keeping / dropping the old key, next
+// ClientAuth policy}. On every connection, resumed or not, the server reports the client's
+// certificate (under every policy that asks for one) and the client the server's pair.
+func gmReconnectUnit(suite uint16, depth int) harness.Unit {
+	return harness.Unit{Name: fmt.Sprintf("reconnect/GMSSL/%04x/depth%d", suite, depth), Run: func(c *harness.Ctx) {
+		p := tlsk.Get()
+		policies := []gmtls.ClientAuthType{gmtls.RequestClientCert, gmtls.RequireAnyClientCert, gmtls.VerifyClientCertIfGiven, gmtls.RequireAndVerifyClientCert, gmtls.NoClientCert}
+		opName := []string{"connect", "rotate ticket keys (old key kept)", "rotate ticket keys (old key dropped)", "next ClientAuth policy"}
+		var seqs [][]int
+		var rec func(cur []int)
+		rec = func(cur []int) {
+			if len(cur) > 0 && cur[len(cur)-1] == 0 {
+				seqs = append(seqs, append([]int{}, cur...))
+			}
+			if len(cur) == depth {
+				return
+			}
+			for op := 0; op < 4; op++ {
+				rec(append(cur, op))
+			}
+		}
+		rec(nil)
+		app := [2]tlsk.App{{Writes: [][]byte{[]byte("c->s")}, Expect: 4}, {Writes: [][]byte{[]byte("s->c")}, Expect: 4}}
+		for _, sq := range seqs {
+			pi := 0
+			sc := &gmtls.Config{GMSupport: &gmtls.GMSupport{}, Certificates: []gmtls.Certificate{p.Sign, p.Enc}, Time: tlsk.FixedTime, Rand: wire.NewRand(11), CipherSuites: []uint16{suite}, ClientAuth: policies[0], ClientCAs: p.Roots}
+			keys := [][32]byte{{1}}
+			sc.SetSessionTicketKeys(keys)
+			cc := &gmtls.Config{GMSupport: &gmtls.GMSupport{}, RootCAs: p.Roots, ServerName: tlsk.ServerName, Certificates: []gmtls.Certificate{p.Client}, Time: tlsk.FixedTime, Rand: wire.NewRand(22), CipherSuites: []uint16{suite}, ClientSessionCache: gmtls.NewLRUClientSessionCache(2)}
+			hist := ""
+			for i, op := range sq {
+				hist += opName[op] + "; "
+				switch op {
+				case 1, 2:
+					nk := [32]byte{byte(10 + i)}
+					if op == 1 {
+						keys = append([][32]byte{nk}, keys...)
+					} else {
+						keys = [][32]byte{nk}
+					}
+					sc.SetSessionTicketKeys(keys)
+					continue
+				case 3:
+					pi = (pi + 1) % len(policies)
+					sc.ClientAuth = policies[pi]
+					continue
+				}
+				var cv, sv tlsk.View
+				o := tlsk.Run(tlsk.GMEnd(cc, true, app[0], &cv, nil), tlsk.GMEnd(sc, false, app[1], &sv, nil), &cv, &sv, nil)
+				if i != len(sq)-1 {
+					continue
+				}
+				label := fmt.Sprintf("GMSSL %04x: %s(ClientAuth=%d at the last connection)", suite, hist, policies[pi])
+				key := fmt.Sprintf("gm:%04x:%s", suite, hist)
+				c.Add("executions", 1)
+				c.Add("transitions", int64(len(sq)))
+				c.DistinctS("states", label)
+				c.DistinctS("outcomes", fmt.Sprintf("c=%v s=%v resumed=%v/%v certs=%d", o.C.Complete, o.S.Complete, o.C.DidResume, o.S.DidResume, len(o.S.PeerCerts)))
+				if o.C.Panic != nil || o.S.Panic != nil {
+					c.Violate("reconnect:panic:"+panicSite(o.C.Stack+o.S.Stack), fmt.Sprintf("[%s] endpoint panicked: client=%v server=%v\n%s", label, o.C.Panic, o.S.Panic, clip(o.C.Stack+o.S.Stack, 1500)), nil, label)
+					continue
+				}
+				if len(o.Stuck) > 0 || o.Horizon {
+					c.Violate("reconnect:hang:"+key, fmt.Sprintf("[%s] endpoints did not finish: %v", label, o.Stuck), nil, label)
+					continue
+				}
+				if !o.C.Complete || !o.S.Complete {
+					c.Violate("reconnect:fails:"+key, fmt.Sprintf("[%s] a correctly configured pair must complete every connection: %s", label, o.Describe()), nil, label)
+					continue
+				}
+				if o.C.Version != o.S.Version || o.C.Suite != o.S.Suite || o.C.DidResume != o.S.DidResume || !bytes.Equal(o.C.EKM, o.S.EKM) {
+					c.Violate("reconnect:views-differ:"+key, fmt.Sprintf("[%s] %s", label, o.Describe()), nil, label)
+				}
+				if len(o.C.PeerCerts) < 2 || !bytes.Equal(o.C.PeerCerts[0], p.Sign.Certificate[0]) || !bytes.Equal(o.C.PeerCerts[1], p.Enc.Certificate[0]) {
+					c.Violate("reconnect:server-certificates:"+key, fmt.Sprintf("[%s] the client reports %d peer certificates (resumed=%v)", label, len(o.C.PeerCerts), o.C.DidResume), nil, label)
+				}
+				wantClientCert := policies[pi] != gmtls.NoClientCert
+				if wantClientCert && (len(o.S.PeerCerts) == 0 || !bytes.Equal(o.S.PeerCerts[0], p.Client.Certificate[0])) {
+					c.Violate("reconnect:client-certificate:"+key, fmt.Sprintf("[%s] the server reports %d peer certificates although its policy asks for one and the client has one (resumed=%v)", label, len(o.S.PeerCerts), o.S.DidResume), nil, label)
+				}
+				if !bytes.Equal(o.S.Read, []byte("c->s")) || !bytes.Equal(o.C.Read, []byte("s->c")) {
+					c.Violate("reconnect:data:"+key, fmt.Sprintf("[%s] %s", label, o.Describe()), nil, label)
+				}
+			}
+		}
+		c.Sample(fmt.Sprintf("GMSSL %04x, client authentication: every sequence up to length %d over {connect, rotate keeping / dropping the old key, next ClientAuth policy}", suite, depth))
+	}}
+}
